@@ -111,6 +111,9 @@ type CallPlan struct {
 
 	bin map[string][][]byte // original bytes of generated -Bin values
 
+	TimeoutString string // C10: header string under test and its class
+	TimeoutClass  string
+
 	Raw *RawReq // if set: no connect client; a crafted HTTP request is served directly
 
 	Task int // client task group (calls with the same Task run sequentially in one task)
